@@ -201,8 +201,8 @@ impl Check for C06 {
     }
     fn phases(&self, tier: Tier) -> Vec<Phase> {
         match tier {
-            Tier::Quick => vec![Phase::random("history-profile", 5_000, 2048).batch(100).watchdog(30_000)],
-            Tier::Thorough => vec![Phase::random("history-profile", 80_000, 2048).batch(200).watchdog(30_000)],
+            Tier::Quick => vec![Phase::random("history-profile", 25_000, 2048).batch(100).watchdog(30_000)],
+            Tier::Thorough => vec![Phase::random("history-profile", 400_000, 2048).batch(200).watchdog(30_000)],
         }
     }
     fn describe(&self, _phase: usize, tape: &[u8]) -> String {
